@@ -4,6 +4,8 @@ RC = "-lrapidcheck"
 
 TARGETS = {
     "t_kernel": dict(variant="asan", srcs=["t_kernel.cc"], libs=RC),
+    "t_queries": dict(variant="asan", srcs=["t_queries.cc"], libs=RC),
+    "t_handles": dict(variant="opt", srcs=["t_handles.cc"], libs="-lpthread"),
 }
 
 # kind "rc_program": rapidcheck over op programs; workers run `<bin> --run ID`
@@ -110,6 +112,88 @@ CHECKS = {
         level_text=("Metamorphic test: swap == relabeling of the complete observable state; swap twice == identity; "
                     "pairs include adjacent, shared, first/last, deleted slots; any bottom-up subset."),
         level_note="Bounded by program length and mesh size.",
+    ),
+    "C05": dict(
+        kind="rc_program", target="t_queries", level="exploration",
+        quick=dict(workers=16, max_success=500, max_size=100, len_scale=0.5, timeout=900),
+        thorough=dict(workers=16, max_success=6000, max_size=100, len_scale=1.5, timeout=3600),
+        rule=("cases = random kernel histories (incl. empty meshes and deferred-deleted entities anywhere in the arrays); "
+              "at generated points and at the end EVERY entity iterator (begin/end, valid()-loop, range-for, backward "
+              "from end, forward again) and EVERY one of the 26 kernel circulators on EVERY live centre with max_laps "
+              "1,2,3 is compared with the brute-force incident (multi)set / sequence: L laps of the same sequence, "
+              "lap() counter, end == begin advanced L*|S|, generated ++/-- walk (never before begin), empty centre => "
+              "immediately invalid. non-trivial = a case with a centre of |S|>=2, L>=2 and a walk stepping backward "
+              "across a lap boundary; distinct = distinct program hash"),
+        assumptions=["upward circulators are gated on the C01 oracle (cases failing it are discarded and counted)",
+                     "walks never step before begin; after reaching the end only one backward step is checked"],
+        technique="rapidcheck histories + exhaustive per-state sweep of all iterators/circulators against a brute-force model of the iteration protocol",
+        level_text="Every iterator/circulator class x every centre x max_laps 1..3 x generated walks on thousands of generated states.",
+        level_note="Tetrahedral/hexahedral circulators are covered by the C15/C16 targets.",
+    ),
+    "C08": dict(
+        kind="rc_program", pre="handles_exhaustive", target="t_queries", level="exploration",
+        quick=dict(workers=16, max_success=2500, max_size=100, len_scale=0.6, timeout=900),
+        thorough=dict(workers=16, max_success=30000, max_size=100, len_scale=2.0, timeout=3600),
+        rule=("part 1: the handle conversions (edge<->halfedge, face<->halfface, sub-index, opposite, static and member "
+              "forms) are checked for EVERY index in [0, 2^30) (complete enumeration, exhaustive). part 2: random "
+              "histories; at generated points every live edge/face is checked: opposite halfedge swaps endpoints, "
+              "opposite halfface = reversed opposites, double opposite = identity, faces built from vertices or accepted "
+              "with topology check are closed loops, both sides enumerate the same cycle in opposite directions, "
+              "next/prev are inverse steps. non-trivial = a case with >=1 checked closed face of valence 3/4; "
+              "distinct = distinct program hash"),
+        assumptions=["faces using one halfedge twice are skipped for next/prev (ambiguous), counted"],
+        technique="complete enumeration of 2^30 handle indices + rapidcheck histories with per-state mirror-image oracle",
+        level_text="Exhaustive over the index space for the pure handle algebra; generated states for the stored half-entities (valence 1..8, loops, 2-gons).",
+        level_note="Indices in [2^30, 2^31) would overflow 2*idx in the library's int arithmetic and are outside the stated quantifier.",
+    ),
+    "C09": dict(
+        kind="rc_program", target="t_queries", level="exploration",
+        quick=dict(workers=16, max_success=1500, max_size=100, len_scale=0.5, timeout=900),
+        thorough=dict(workers=16, max_success=20000, max_size=100, len_scale=1.5, timeout=3600),
+        rule=("cases = random histories without set_* (rings of 3-6 tets around an edge inserted in generated order, open "
+              "fans, cones glued on boundary faces, template cells, deletions of every kind, GC, swaps, bottom-up "
+              "toggles); every edge classified by brute force as a single fan must report its halffaces in rotational "
+              "order (successor = opposite of the in-cell neighbour, boundary halfface last, opposite halfedge mirrored, "
+              "halfedge_cells/edge_cells in that order); in every closed cell adjacent_halfface_in_cell returns the "
+              "unique other halfface (either halfedge orientation when unambiguous) and is involutive. non-trivial = a "
+              "case with a single-fan edge of valence >=3 and >=1 adjacency check; distinct = distinct program hash"),
+        assumptions=["edges that are not a single fan are skipped and counted", "gated on the C01 oracle"],
+        technique="rapidcheck histories + brute-force fan classification and successor relation",
+        level_text="Validity predicate (not a fixed answer) for the rotational order on every single-fan edge of generated non-manifold and manifold states.",
+        level_note="Hex sheet adjacency is covered by the C16 target.",
+    ),
+    "C10": dict(
+        kind="rc_program", target="t_queries", level="exploration",
+        quick=dict(workers=16, max_success=400, max_size=100, len_scale=0.4, timeout=900),
+        thorough=dict(workers=16, max_success=5000, max_size=100, len_scale=1.0, timeout=3600),
+        rule=("cases = random histories with simple faces; per sampled state: find_halfedge on ALL ordered vertex pairs, "
+              "find_halfface/find_halfface_extensive on every rotation / reversal / one-vertex-replaced / prefix / "
+              "cross-face tuple of every halfface, find_halfface(halfedges) on pairs, get_halfface_vertices (3 forms, "
+              "every start), is_incident on all (face, edge), n_vertices_in_cell, find_halfedge_in_cell on all pairs and "
+              "find_halfface_in_cell on derived triples of every closed cell; each answer must satisfy the validity "
+              "predicate iff a brute-force search finds a qualifying entity. non-trivial = a case with >20 positive and "
+              ">20 negative lookups; distinct = distinct program hash"),
+        assumptions=["vertex-tuple lookups across parallel duplicate edges are excluded (ambiguous which edge is meant), counted",
+                     "states with non-simple faces are skipped (consecutive is ambiguous), counted", "gated on the C01 oracle"],
+        technique="rapidcheck histories + exhaustive/derived argument tuples against brute-force validity predicates",
+        level_text="Soundness and completeness of every lookup on generated states against scans of the definitions.",
+        level_note="Bounded mesh size.",
+    ),
+    "C11": dict(
+        kind="rc_program", target="t_queries", level="exploration",
+        quick=dict(workers=16, max_success=2000, max_size=100, len_scale=0.6, timeout=900),
+        thorough=dict(workers=16, max_success=40000, max_size=100, len_scale=2.0, timeout=3600),
+        rule=("cases = random histories containing add_edge with/without allowDuplicates on existing / reversed / "
+              "deferred-deleted pairs (with and without vertex bottom-up), and topology-checked add_face / add_cell on "
+              "valid loops / closed surfaces and on perturbations (empty, one dropped/doubled/replaced/flipped, rotated, "
+              "re-oriented, permuted); acceptance must equal the harness predicate; a rejected/deduplicated call must "
+              "leave the handle-exact raw snapshot (flags, definitions, incidences, properties, positions) unchanged, an "
+              "accepted one must append exactly the given entity and change nothing else. non-trivial = a case with >=1 "
+              "rejected/deduplicated and >=1 accepted checked call; distinct = distinct program hash"),
+        assumptions=["only free halffaces are offered to add_cell (domain: no halfface in two live cells)"],
+        technique="rapidcheck histories + acceptance predicate + handle-exact before/after snapshots",
+        level_text="Validation logic of the polyhedral kernel against an independent closedness predicate, with full-state unchanged checks.",
+        level_note="Tet/hex valence validation is covered by C15/C16.",
     ),
 }
 
